@@ -809,8 +809,9 @@ func reifyPrimitive(
 	// zero initialize value if val==nil
 	if isNil(val) {
 		v := tryInitDefaults(pointerize(t, baseType, reflect.Zero(baseType)))
-		if hasInitDefaults(baseType) {
-			// the default must validate like a value from the configuration
+		{
+			// the default (or the zero value standing in for an explicit null
+			// element) must validate like a value from the configuration
 			if err := runValidators(v.Interface(), opts.validators); err != nil {
 				return reflect.Value{}, raiseValidation(val.Context(), val.meta(), "", err)
 			}
